@@ -704,8 +704,19 @@ pub fn gen_full_world(src: &mut Src, d: &MDesc) -> World {
     }
     let (afters, olders) = locks_of(&d.nodes());
     let lock_time = afters.iter().copied().max().unwrap_or(0);
-    let sequence = olders.iter().copied().max().unwrap_or(0xffff_fffe);
+    let sequence = sequence_meeting(&olders).unwrap_or_else(|| olders.iter().copied().max().unwrap_or(0xffff_fffe));
     World { keys: keys_set, preimages, lock_time, sequence, tx_version: 2 }
+}
+
+/// An nSequence value that meets every relative lock of `olders` (they must be of one unit):
+/// the unit flag with the largest 16-bit value (bits that BIP68 ignores are dropped).
+pub fn sequence_meeting(olders: &[u32]) -> Option<u32> {
+    let first = *olders.first()?;
+    let flag = first & (1 << 22);
+    if olders.iter().any(|o| o & (1 << 22) != flag) {
+        return None;
+    }
+    Some(flag | olders.iter().map(|o| o & 0xffff).max().unwrap_or(0))
 }
 
 fn gen_lock_value(src: &mut Src, own: &[u32], others: &[u32]) -> u32 {
